@@ -199,6 +199,27 @@ Proof.
     + left. apply Hw. exact H.
 Qed.
 
+(* decorating several objects in a row: what each one becomes does not depend on the others,
+   and the registrations simply accumulate (no cross-talk between decorations) *)
+Theorem decorate_all_independent cs : forall regs,
+  decorate_all regs cs = (regs ++ flat_map register cs, map wrap cs).
+Proof.
+  induction cs as [|c cs IH]; intros regs; cbn [decorate_all flat_map map].
+  - rewrite app_nil_r. reflexivity.
+  - unfold decorate at 1. cbn [fst snd]. rewrite IH. rewrite app_assoc. reflexivity.
+Qed.
+
+Theorem each_result_runs_its_own_functions cs regs n c d a :
+  nth_error cs n = Some c ->
+  exists w, nth_error (snd (decorate_all regs cs)) n = Some w
+            /\ map fst (invoke d a w) = map fst (invoke d a c)
+            /\ forall f e, In (f, e) (invoke d a w) -> e = d + 1.
+Proof.
+  intros H. rewrite decorate_all_independent. cbn [snd]. exists (wrap c). split.
+  - rewrite nth_error_map, H. reflexivity.
+  - split; [apply same_functions_run|]. intros f e. apply runs_one_level_up.
+Qed.
+
 (* the same function object used twice inside one object IS handed to add_function twice
    (the marker lives on the wrapper, not on the function) *)
 Theorem shared_function_registered_twice :
